@@ -154,6 +154,11 @@ def main (argv = None):
         evals.update (t.get ('evals') or {})
         events.update (t.get ('events') or {})
     missing_anchors = [q for q in getattr (mod, 'ANCHORS_REQUIRED', []) if anchors.get (q, [0, 0]) [0] == 0]
+    # some mechanisms decide only when a specific branch ran: minimum fraction of the function's lines
+    for q, frac in getattr (mod, 'ANCHORS_MIN', {}).items ():
+        h, tot = anchors.get (q, [0, 0])
+        if not tot or h < frac * tot:
+            missing_anchors.append ('%s (%d of %d lines, %d %% required)' % (q, h, tot, int (frac * 100)))
     # ------------------------------------------------------------ verdict
     rdir = os.path.join (common.VERIF, 'replays', pid)
     lines = []
